@@ -96,6 +96,10 @@ structure Conf where
   parentalEnabled : Bool := false
   sbHost : BlockHost := .empty
   parentalHost : BlockHost := .empty
+  /-- the built-in DHCP server provides client information (`dhcpServer.Enabled()`) -/
+  dhcpEnabled : Bool := false
+  /-- its leases: host name (lower case) and address; the local domain is `lan` -/
+  dhcpLeases : List (Bytes × IP) := []
   deriving Repr
 
 /-- `filtering.Settings` as far as the checkers read it. -/
@@ -621,11 +625,57 @@ def handleMain (e : Engines) (c : Conf) (u : Upstream) (q : Query) : Outcome :=
         (some { reason := .autoHosts, isFiltered := false, svcName := [], origAnswer := none })
     else forwardStage e c u q res
 
+/-- "lan", the default local domain suffix -/
+def localDomain : Bytes := [108, 97, 110]
+
+/-- `dhcpHostFromRequest`: for A / AAAA questions while DHCP is enabled, the host
+part of a name that is an immediate sub-domain of the local domain (compared in
+lower case ON A COPY: the question itself keeps the client's spelling). -/
+def dhcpHost (c : Conf) (q : Query) : Option Bytes :=
+  if c.dhcpEnabled && (q.qtype == tA || q.qtype == tAAAA) then
+    let h := lower q.name.dropLast
+    let suffix := dot :: localDomain
+    if h.length > suffix.length && suffix.isSuffixOf h && !(h.take (h.length - suffix.length)).contains dot
+    then some (h.take (h.length - suffix.length)) else none
+  else none
+
+/-- was the response set before the upstream stage (blocked, rewritten locally,
+hosts container)?  Read off the outcome of the filtering stages. -/
+def setEarly (log : List Query) (ql : Option QLog) : Bool :=
+  match ql with
+  | some l => (l.isFiltered && l.origAnswer.isNone) ||
+              ((l.reason == .rewritten || l.reason == .autoHosts) && log.isEmpty)
+  | none => false
+
+/-- `processDHCPHosts` … `processUpstream` for a name under the local domain (the
+client is private): a lease is answered locally (A only; no DNS64); without a
+lease the name goes through the filters, and whatever would have been sent
+upstream is answered NXDOMAIN instead (never forwarded, not logged).  QUIRK: the
+NXDOMAIN is built for the question as it stands at the upstream stage, which
+after a legacy CNAME rewrite is the canonical name (the stage that restores the
+question is skipped). -/
+def dhcpStage (e : Engines) (c : Conf) (u : Upstream) (q : Query) : Option Outcome :=
+  match dhcpHost c q with
+  | none => none
+  | some h =>
+    match c.dhcpLeases.find? (fun l => l.1 == h) with
+    | some l =>
+      some (.done { reply q rcSuccess with answer := if q.qtype = tA then [ansA c q (some l.2)] else [] } []
+        (some { reason := .notFound, isFiltered := false, svcName := [], origAnswer := none }))
+    | none =>
+      match handleMain e c u q with
+      | .done m log ql =>
+        if setEarly log ql then some (.done m log ql) else some (.done (msgNXDOMAIN c (log.head?.getD q)) [] none)
+      | .err => some .err
+
 /-- `handleDNSRequest` -/
 def handle (e : Engines) (c : Conf) (u : Upstream) (q : Query) : Outcome :=
   match shortCircuit c q with
   | some o => o
-  | none => handleMain e c u q
+  | none =>
+    match dhcpStage e c u q with
+    | some o => o
+    | none => handleMain e c u q
 
 /-! ## The dnsproxy response cache in front of the upstream (sequence mode)
 
